@@ -24,6 +24,12 @@ func corrNodes(cx *lib.Ctx) {
 	types := []string{"blk", "svc", "x"}
 	n := cx.Scale(300, 12000)
 	for i := 0; i < n; i++ {
+		corrNodesHistory(cx, names, types)
+	}
+}
+
+func corrNodesHistory(cx *lib.Ctx, names, types []string) {
+	{
 		r := cx.R.Fork()
 		f := hclwrite.NewEmptyFile()
 		body := f.Body()
@@ -31,20 +37,25 @@ func corrNodes(cx *lib.Ctx) {
 		var live []int
 		nextID := 1
 		var ops []string
+		defer func() {
+			if p := recover(); p != nil {
+				cx.Res.Fail(lib.Failure{Kind: "corr", Key: "WOP:panic", Desc: fmt.Sprintf("the last edit operation of this history panicked: %v", p), Input: "WOP " + strings.Join(ops, " ")})
+			}
+		}()
 		for j := 1 + r.Intn(25); j > 0; j-- {
 			switch r.Intn(10) {
 			case 0, 1, 2, 3:
 				nm, v := r.Pick(names), r.Intn(100)
-				body.SetAttributeValue(nm, cty.NumberIntVal(int64(v)))
 				ops = append(ops, fmt.Sprintf("set:%s:%d", nm, v))
+				body.SetAttributeValue(nm, cty.NumberIntVal(int64(v)))
 			case 4:
 				nm := r.Pick(names)
-				body.RemoveAttribute(nm)
 				ops = append(ops, "rm:"+nm)
+				body.RemoveAttribute(nm)
 			case 5:
 				a, b := r.Pick(names), r.Pick(names)
-				body.RenameAttribute(a, b)
 				ops = append(ops, "ren:"+a+":"+b)
+				body.RenameAttribute(a, b)
 			case 6, 7:
 				t := r.Pick(types)
 				var ls []string
@@ -65,9 +76,9 @@ func corrNodes(cx *lib.Ctx) {
 				}
 				k := r.Intn(len(live))
 				id := live[k]
+				ops = append(ops, fmt.Sprintf("rmb:%d", id))
 				body.RemoveBlock(blocks[id])
 				live = append(live[:k], live[k+1:]...)
-				ops = append(ops, fmt.Sprintf("rmb:%d", id))
 			default:
 				body.AppendNewline()
 				ops = append(ops, "nl")
